@@ -6,7 +6,6 @@ use crate::tree::method::code::{Label, LabelRange};
 pub(crate) struct Labels {
 	code_length: u16,
 	labels: HashMap<u16, Label>,
-	max_id: u16,
 }
 
 impl Labels {
@@ -14,16 +13,13 @@ impl Labels {
 		Labels {
 			code_length,
 			labels: HashMap::with_capacity(code_length as usize / 3),
-			max_id: 0,
 		}
 	}
 
 	fn get_or_add_unchecked(&mut self, pc: u16) -> &mut Label {
-		self.labels.entry(pc).or_insert_with(|| {
-			let label = Label { id: self.max_id };
-			self.max_id += 1;
-			label
-		})
+		// there are at most 65536 bytecode offsets (the exclusive end included), so the ids 0..=65535 always suffice
+		let next_id = self.labels.len() as u16;
+		self.labels.entry(pc).or_insert(Label { id: next_id })
 	}
 
 	pub(crate) fn create(&mut self, pc: u16) -> Result<()> {
